@@ -17,7 +17,7 @@ SeqToSet(q) == {q[i] : i \in DOMAIN q}
 
 \* JSON object -> state record of Repo.tla
 StateOf(j) ==
-  [ cfgc |-> j.cfgc, cfgNewer |-> j.cfgNewer, issNewer |-> j.issNewer, art |-> j.art,
+  [ cfgc |-> j.cfgc, prof |-> j.prof, cfgNewer |-> j.cfgNewer, issNewer |-> j.issNewer, art |-> j.art,
     pc |-> "idle", plan |-> <<>>, pos |-> 0, flags |-> SeqToSet(j.flags), last |-> j.last ]
 
 \* pre.last / pre.flags are outputs of the previous step and irrelevant for what may happen next
@@ -27,6 +27,7 @@ ActOf(a) ==
   IF a.name = "Run"
   THEN [name |-> "Run", fl |-> SeqToSet(a.fl), plan |-> a.plan, k |-> a.k, outcome |-> a.outcome, cut |-> a.cut]
   ELSE IF a.name = "Edit" THEN [name |-> "Edit", e |-> a.e, c |-> a.c]
+  ELSE IF a.name = "EditProfile" THEN [name |-> "EditProfile", c |-> a.c]
   ELSE IF a.name = "Truncate" THEN [name |-> "Truncate", e |-> a.e, cut |-> a.cut]
   ELSE [name |-> a.name, e |-> a.e]
 
